@@ -147,3 +147,7 @@ impl<'a> AvroCursor<'a> {
         Ok(())
     }
 }
+
+#[cfg(kani)]
+#[path = "/verif/kani/arrow-avro/reader/cursor.rs"]
+mod verif_kani;
